@@ -32,6 +32,8 @@ class ObResult:
         self.line = line
         self.kind = kind            # vc | effect | ownership | lemma | fp64 | bounded
         self.witness = witness      # concrete replayable input, if any
+        self.replayer = None        # native runtime-contract search for the function under contract
+        self.replayed = None
 
     def to_json(self):
         d = {"id": self.id, "status": self.status, "backend": self.backend, "secs": round(self.secs, 3),
@@ -92,9 +94,16 @@ class Ctx:
         I = Interp(self.mods, ext, dict(registry or {}))
         return I
 
-    def verify(self, name, module, qualname, setup, post=None, loops=None, registry=None, extras=None,
+    def verify(self, *a, **kw):
+        res = self._verify(*a, **kw)
+        rp = kw.get('replayer')
+        for r in res:
+            r.replayer = rp
+        return res
+
+    def _verify(self, name, module, qualname, setup, post=None, loops=None, registry=None, extras=None,
                allowed_raises=(), raises_post=None, check_div=False, prefix=None, on_interp=None,
-               expect_paths=1, witness=None):
+               expect_paths=1, witness=None, replayer=None):
         """Symbolically execute module.qualname under the contract and discharge its obligations.
 
         setup(I, st) -> dict(self_val=..., args=[...], kwargs={...})   (assumes `requires` on st)
@@ -136,8 +145,10 @@ class Ctx:
                     n_ret += 1
                     if post:
                         I.cur.append((module, qualname))
-                        for lab, goal in post(I, o, pre):
-                            I.oblige(lab, o.state, goal)
+                        for step in post(I, o, pre):
+                            I.oblige(step[0], o.state, step[1])
+                            if len(step) > 2 and step[2] is not None:
+                                o.state.assume(step[2])   # proof step: proved above, used below
                         I.cur.pop()
                 elif o.kind == "raise":
                     exc = o.value[0]
@@ -175,6 +186,7 @@ class Ctx:
                                       detail=f"uncaught {e.exc} during setup: {e.msg}"))]
         for (m, q) in sorted(I.inlined):
             self.fuc(m, q, role="inlined")
+        self.last_obligations = list(I.obligations)
         # group obligation instances by label
         groups = {}
         for ob in I.obligations:
